@@ -79,8 +79,12 @@ package gortsplib
 //@   ensures[C02] ss.state == old(ss.state) || (old(ss.state) == ServerSessionStateInitial && ss.state == ServerSessionStatePreRecord) || (old(ss.state) == ServerSessionStateInitial && ss.state == ServerSessionStatePrePlay) || (old(ss.state) == ServerSessionStatePrePlay && ss.state == ServerSessionStatePlay) || (old(ss.state) == ServerSessionStatePreRecord && ss.state == ServerSessionStateRecord) || (old(ss.state) == ServerSessionStatePlay && ss.state == ServerSessionStatePrePlay) || (old(ss.state) == ServerSessionStateRecord && ss.state == ServerSessionStatePreRecord)
 //@   modifies *
 
+// C20: the Content-Base answered to DESCRIBE is the request URL as it was written on the request
+// line (URL.String(): escapes kept) followed by "/", so that the client's SETUP and PLAY URLs lead
+// back to the same path and query.
 //@ func (sc *ServerConn) handleRequestInner
 //@   opt inline=0
+//@   assert[C20]@mapupdate arg(0) == "Content-Base" ==> len(arg(1)) == 1 && arg(1)[0] == urlstr(req.URL.Scheme, req.URL.Opaque, req.URL.User, req.URL.Host, req.URL.Path, req.URL.RawPath, req.URL.OmitHost, req.URL.ForceQuery, req.URL.RawQuery, req.URL.Fragment, req.URL.RawFragment) + "/"
 //@   modifies *
 
 // Exactly one response is written for a request, whatever the handlers return (C02).
